@@ -242,6 +242,26 @@ func gridRequests() []Req {
 			}
 		}
 	}
+	// several field lines of which some or all are EMPTY: a header that is present with
+	// empty lines only is still present (w30-C11)
+	for _, m := range []string{"OPTIONS", "GET"} {
+		for hi, k := range []string{hOrigin, hACRM} {
+			full, other := "https://example.com", hACRM
+			otherFull := "PUT"
+			if hi == 1 {
+				full, other, otherFull = "PUT", hOrigin, "https://example.com"
+			}
+			for _, lines := range [][]string{{"", ""}, {"", full}, {full, ""}, {"", "", ""}, {"", "", full}} {
+				for _, ov := range [][]string{nil, {""}, {otherFull}, {"", ""}} {
+					q := Req{Method: m, H: []HV{{k, append([]string{}, lines...)}}}
+					if ov != nil {
+						q.H = append(q.H, HV{other, append([]string{}, ov...)})
+					}
+					out = append(out, q)
+				}
+			}
+		}
+	}
 	// field-line COUNTS on type-width boundaries (a legal request: 256 short lines are a few KB)
 	many := func(v string, n int) []string {
 		l := make([]string, n)
